@@ -32,8 +32,15 @@ func skeletonGoal(sym string, k int) *G {
 		return ga("fail")
 	case "t":
 		return ga("true")
-	case "c": // a cut that must stay local
-		return gc("call", gc(",", gc("member", gv(k%2), two), ga("!")))
+	case "c": // a cut that must stay local: right-nested, grouped on the left, grouped on the right
+		m := gc("member", gv(k%2), two)
+		switch k % 3 {
+		case 1:
+			return gc("call", gc(",", gc(",", m, ga("!")), ga("true")))
+		case 2:
+			return gc("call", gc(",", ga("true"), gc(",", m, ga("!"))))
+		}
+		return gc("call", gc(",", m, ga("!")))
 	case "x": // an error
 		return gc("throw", ga("ball"))
 	case "k": // a catch/3 that exits (its goal is nondeterministic)
@@ -145,4 +152,51 @@ func shiftVars(t *G, d int) *G {
 		return y
 	}
 	return t
+}
+
+// Wide goals (C01): goals handed to call/1 (disjunctions, call/N) with 7-11 distinct
+// free variables each, two alternatives each, one after the other, so that the second
+// goal is started while the alternatives of the first are still pending.
+func widePrograms() []*program {
+	var out []*program
+	fact := func(name string, n int, v int64) *G {
+		var a []*G
+		for i := 0; i < n; i++ {
+			a = append(a, gi(v))
+		}
+		return gc(name, a...)
+	}
+	vars := func(from, n int) []*G {
+		var a []*G
+		for i := 0; i < n; i++ {
+			a = append(a, gv(from+i))
+		}
+		return a
+	}
+	for n := 7; n <= 11; n++ {
+		for m := 7; m <= 11; m += 2 {
+			for shape := 0; shape < 3; shape++ {
+				prog := &program{}
+				prog.clauses = append(prog.clauses, fact("wp", n, 1), fact("wq", n, 2), fact("wr", m, 3), fact("ws", m, 4))
+				a, b := vars(0, n), vars(n, m)
+				var g1, g2 *G
+				switch shape {
+				case 0:
+					g1 = gc(";", gc("wp", a...), gc("wq", a...))
+					g2 = gc(";", gc("wr", b...), gc("ws", b...))
+				case 1: // call/N with a closure holding all but the last argument
+					g1 = gc("call", gc(";", gc("wp", a...), gc("wq", a...)))
+					g2 = gc("call", gc(";", gc("wr", b[:m-1]...), gc("ws", b[:m-1]...)), b[m-1])
+				default: // the second goal in a clause body
+					prog.clauses = append(prog.clauses, gc(":-", gc("wt", b...), gc(";", gc("wr", b...), gc("ws", b...))))
+					g1 = gc(";", gc("wp", a...), gc("wq", a...))
+					g2 = gc("wt", b...)
+				}
+				prog.query = gc(",", g1, g2)
+				prog.nq = n + m
+				out = append(out, prog)
+			}
+		}
+	}
+	return out
 }
